@@ -399,4 +399,63 @@ Section Restart.
       restart write_truncate leftover hdr hist k = restart write_truncate [] hdr hist k.
   Proof. intros. unfold Replay.restart. destruct k; reflexivity. Qed.
 
+
+  (** ** a node killed during a compaction restarts to the state of the node that ran the history,
+      at EVERY stage, whatever the interrupted attempt and earlier ones left at the snapshot paths *)
+  Lemma start_up_cut_eq snap base (log : list entry) la :
+    (match snap with Some (k, _) => base <= k | None => base = 0 end) ->
+    start_up_cut S M capply cload cinit snap base (skipn base log) la = start_up snap log la.
+  Proof.
+    intros Hb. unfold start_up_cut, Replay.start_up. destruct snap as [[k recs] |].
+    - destruct (la =? 0); [reflexivity |]. rewrite skipn_skipn'.
+      replace (base + (k - base)) with k by lia. reflexivity.
+    - subst base. cbn [skipn]. reflexivity.
+  Qed.
+
+  Lemma start_up_files_cut_eq snap base (log : list entry) la :
+    (match snap with Some (k, _) => base <= k | None => base = 0 end) ->
+    start_up_files_cut S M capply cload cinit dec_frame snap base (skipn base log) la =
+    start_up_files S M capply cload cinit dec_frame snap log la.
+  Proof.
+    intros Hb. unfold start_up_files_cut, start_up_files. destruct snap as [[k file] |].
+    - destruct (snap_read file) as [hr | |]; cbn [res_map]; try reflexivity.
+      f_equal. now apply (start_up_cut_eq (Some (k, _))).
+    - f_equal. now apply (start_up_cut_eq None).
+  Qed.
+
+  Lemma crash_restart_is_restart catalogued cut leftover0 hdr0 leftover hdr (hist : list entry) k00 k0 k :
+    k00 <= k0 -> k0 <= k ->
+    crash_restart S M capply csnap cload cinit enc dec_frame write_truncate catalogued cut
+                  leftover0 hdr0 leftover hdr hist k00 k0 k =
+    if catalogued then restart write_truncate leftover hdr hist k else restart write_truncate leftover0 hdr0 hist k0.
+  Proof.
+    intros H0 Hk. unfold crash_restart, Replay.restart, snap_at.
+    destruct catalogued.
+    - destruct k as [| k'].
+      + assert (k0 = 0) by lia. assert (k00 = 0) by lia. subst. destruct cut; apply (start_up_files_cut_eq None); reflexivity.
+      + destruct cut; apply (start_up_files_cut_eq (Some (_, _))); lia.
+    - destruct k0 as [| k0'].
+      + assert (k00 = 0) by lia. subst. destruct cut; apply (start_up_files_cut_eq None); reflexivity.
+      + destruct cut; apply (start_up_files_cut_eq (Some (_, _))); lia.
+  Qed.
+
+  Theorem compaction_crash_points_harmless :
+    forall (catalogued cut : bool) (hist : list entry) (k00 k0 k : nat) (leftover0 hdr0 leftover hdr : list N),
+      k00 <= k0 -> k0 <= k -> k <= length hist -> Forall entry_ok hist ->
+      node_ok (run (firstn k0 hist) init) -> codec_ok hdr0 (build_snapshot (run (firstn k0 hist) init)) ->
+      node_ok (run (firstn k hist) init) -> codec_ok hdr (build_snapshot (run (firstn k hist) init)) ->
+      exists nd,
+        crash_restart S M capply csnap cload cinit enc dec_frame write_truncate catalogued cut
+                      leftover0 hdr0 leftover hdr hist k00 k0 k = Ok nd /\
+        forall c, ceq c (nd c) (run hist init c).
+  Proof.
+    intros catalogued cut hist k00 k0 k l0 h0 l h H00 H0 Hk OK N0 C0 N1 C1.
+    rewrite crash_restart_is_restart by assumption.
+    destruct catalogued; apply restart_reproduces; try assumption; lia.
+  Qed.
+
+  (** ... and the lag of the log cut is NECESSARY: were the log cut at the new snapshot's index while the
+      catalogue still names the previous one, the entries between the two would be gone: stated as the
+      [base <= snapshot index] premise of [start_up_files_cut_eq]; see the witness in Props/C04.v *)
+
 End Restart.
